@@ -182,15 +182,10 @@ func (r *fileRewriter) rewrite() {
 			}
 		case *ast.SelectorExpr:
 			if r.opts.time {
-				if name, ok := isPkgSel(v, "time", "Now", "Sleep", "Since", "After"); ok {
+				if name, ok := isPkgSel(v, "time", "Now", "Sleep", "Since", "After", "NewTimer", "NewTicker", "Tick", "AfterFunc", "Timer", "Ticker"); ok {
 					r.usesMC = true
 					r.keep["time.Now"] = true
 					r.replace(v.Pos(), v.End(), "mcrt."+name)
-				}
-			}
-			if r.opts.time {
-				if name, ok := isPkgSel(v, "time", "Tick", "NewTimer", "NewTicker", "AfterFunc"); ok {
-					r.errs = append(r.errs, fmt.Sprintf("unsupported construct: time.%s at %s (real timers cannot be owned by the scheduler)", name, r.posLabel(v.Pos())))
 				}
 			}
 			if r.opts.stdio {
@@ -262,7 +257,7 @@ func (r *fileRewriter) exprText(e ast.Expr, what string) (string, bool) {
 	}
 	t := r.text(e)
 	if r.opts.time {
-		for _, f := range []string{"After", "Now", "Since", "Sleep"} {
+		for _, f := range []string{"After", "Now", "Since", "Sleep", "NewTimer", "NewTicker", "Tick", "AfterFunc"} {
 			if strings.Contains(t, "time."+f+"(") {
 				t = strings.ReplaceAll(t, "time."+f+"(", "mcrt."+f+"(")
 				r.keep["time.Now"] = true
